@@ -258,6 +258,8 @@ class Fn:
         self.target_features = set(j.get("target_features", []))
         self.module = j.get("module")
         self._defs = None
+        self.alias = {}
+        self.roles = {}
         self._succ = None
         self._calls = None
         self._expr_cache = {}
@@ -293,7 +295,7 @@ class Fn:
         return self.abi.startswith("C")
 
     def local_name(self, idx):
-        return self.locals[idx].get("name")
+        return self.alias.get(idx) or self.locals[idx].get("name")
 
     def param_index(self, name):
         for i in range(1, self.arg_count + 1):
